@@ -8,7 +8,7 @@ import os
 import vlib
 
 ALL_OPS = ["index", "sliced", "strided", "dropped", "taked", "rotated", "unrotated", "transposed", "reversed",
-           "diagonal", "partitioned", "chunked", "flatted", "broadcast", "paren", "halved", "sliced3", "tilde", "range", "front", "back", "addr"]
+           "diagonal", "partitioned", "chunked", "flatted", "broadcast", "paren", "halved", "sliced3", "tilde", "range", "front", "back", "addr", "tiled_q", "tiled_r"]
 LAYOUT_CHANGING = set(ALL_OPS) - {"broadcast", "addr"}
 
 
@@ -119,7 +119,7 @@ PROBE_EXPR = {
     "rotated": "X.rotated()", "unrotated": "X.unrotated()", "transposed": "X.transposed()", "reversed": "X.reversed()",
     "diagonal": "X.diagonal()", "partitioned": "X.partitioned(1)", "chunked": "X.chunked(1)", "flatted": "X.flatted()",
     "broadcast": "X.broadcasted()", "paren": "X({0, 1})", "halved": "X.halved()", "sliced3": "X.sliced(0, 2, 2)", "tilde": "~X",
-    "range": "X.range({0, 1})", "front": "X.front()", "back": "X.back()", "addr": "&X",
+    "range": "X.range({0, 1})", "tiled_q": "X.tiled(1).quotient", "tiled_r": "X.tiled(1).remainder", "front": "X.front()", "back": "X.back()", "addr": "&X",
     "reindexed": "X.reindexed(1)", "blocked": "X.blocked(0, 1)", "stenciled": "X.stenciled({0, 1})", "stenciled2": "X.stenciled({0, 1}, {0, 1})",
     "elements": "X.elements()", "home": "X.home()", "begin": "X.begin()",
 }
